@@ -3,8 +3,10 @@ CONSTANTS
   Precerts = {"p1", "p2"}
   MaxClock = 6
   MaxTree = 5
+  FrontEnds = {"A", "B"}
+  CacheWriteFirst = FALSE
   Depth = 25
 INIT Init
 NEXT SimNext
-INVARIANTS ExportFinished TypeOK STHFaithful DupStable SCTBindsStored SingleIndex QueueSound
+INVARIANTS ExportFinished TypeOK STHFaithful STHVerifies SignedHeadCoherent DupStable SCTBindsStored SingleIndex QueueSound
 CHECK_DEADLOCK FALSE
